@@ -25,7 +25,7 @@ CHECKS = {
          "Observation through the filters/handlers themselves (public API).", "DESIGN §6 C06"),
  "C07": ("fault_enumeration", "recording-writer monitor over an enumerated switch/outcome matrix: decode-complete-stream == written log, label and enablement checks, identity twin",
          "Enumerates entry point x container switch x route override x Accept-Encoding x pre-set Content-Encoding x provider x outcome kind (success, routing errors, panic before/after output) x payload/chunking (plus explicit statuses, forwarding handlers, reused write buffers, io.WriteString) and checks each response against the bytes the handlers logged; every 5th ServeHTTP cell runs behind a real net/http server and is read by an http.Client.",
-         "Known finding D7 (ServeHTTP + container on + route off) is listed in KNOWN_FINDINGS.txt and reported as KNOWN-FINDING.", "DESIGN §6 C07"),
+         "The former known finding D7 (ServeHTTP + container switch on + route switch off) was repaired in /repo (fix 2cc8b80, KNOWN_FINDINGS.txt); its revert is part of the seeded regression set.", "DESIGN §6 C07"),
  "C08": ("exploration", "reference CORS-policy monitor + filter-less twin differential over near-miss origins",
          "For each generated configuration and origin (exact, case variants, prefixes, suffixes, superstrings, look-alikes, null, empty) the response's Access-Control-* headers are judged by a reference policy, and disallowed/absent origins must be answered exactly like a twin container without the filter.", "Predicate calls are tapped to know what the predicate answered for this request.", "DESIGN §6 C08"),
  "C09": ("exploration", "reference preflight monitor + twin probing of routable methods + per-filter history (sequential and concurrent, race detector on)",
